@@ -6,6 +6,8 @@ Line protocol (twin of lean/TraitsVerif/Driver/Resolve.lean):
   cls <C> <base,base|-> <attr=Spec,...|->     new <o> <C>
   get <o> .<name>   set <o> .<name> <val>     del <o> .<name>
   add <o> .<name> <Spec>   rem <o> .<name>    trt <o> .<name> <mode>
+  hook <o> .<prefix> <Spec>   obj.on_trait_change(h, 'trait_added'), h adds the instance trait Spec for
+                              every newly resolved name that starts with prefix
   Spec = Kind[:val]@tag      val = n | u | i<int> | s<chars>
 `traits` is never imported at module level."""
 import itertools
@@ -180,9 +182,19 @@ class Impl:
         self.classes = dict(roots())
         self.objs = {}
         self.nclasses = 0
+        self.added_by_listener = []     # (obj, name, spec): add_trait calls made by trait_added listeners
 
     def gov(self, o, name):
         return tag_of(o._trait(name, 0))
+
+    def listener(self, prefix, spec):
+        log = self.added_by_listener
+
+        def on_trait_added(obj, tname, new):
+            if isinstance(new, str) and new.startswith(prefix):
+                obj.add_trait(new, mk_trait(spec))
+                log.append((obj, new, spec))
+        return on_trait_added
 
     def apply(self, words):
         """-> (output, info) ; info carries what the oracle may look at."""
@@ -235,6 +247,9 @@ class Impl:
                 r = "bool " + ("T" if o.remove_trait(name) else "F")
             elif k == "trt":
                 r = "trait " + tag_of(o._trait(name, int(words[3])))
+            elif k == "hook":
+                o.on_trait_change(self.listener(name, words[3]), "trait_added")
+                r = "ok"
             else:
                 return "bad-op", None
         except Exception as e:
@@ -619,6 +634,43 @@ def deleg_history(rng):
             ops.append("rem %s .%s" % (o, n))
         else:
             ops.append("trt %s .%s %s" % (o, n, rng.choice(["0", "-1", "2"])))
+    return "res|" + ";".join(ops)
+
+
+def hook_history(rng):
+    """Re-entrancy: a trait_added listener adds an instance trait for the very name that is being
+    resolved against a wildcard for the first time (read, write, delete, _trait(.., -1/2), add_trait).
+    The second object has no listener: when it resolves a name first, the name is cached in the class
+    and the listener of the first object never hears of it."""
+    root = rng.choice(["H", "H", "S", "P"])
+    tag = 1
+    decls = []
+    for a in rng.sample(["f_", "f_s_", "fs_", "_", "g_", "f"], rng.choice([1, 2, 2, 3])):
+        decls.append("%s=%s" % (a, rand_spec(rng, tag)))
+        tag += 1
+    ops = ["cls A %s %s" % (root, ",".join(decls)), "new a A", "new b A"]
+    for _ in range(rng.choice([1, 1, 2])):
+        ops.append("hook %s .%s %s" % (rng.choice(["a", "a", "a", "b"]), rng.choice(["f_s", "f_s", "f", "g", "", "f_sx"]),
+                                       rand_spec(rng, tag)))
+        tag += 1
+    names = ["f_s1", "f_s2", "f_sx", "f_n", "fs1", "g1", "q", "f", "f_s"]
+    for _ in range(rng.randint(1, 7)):
+        o = rng.choice(["a", "a", "a", "b"])
+        n = rng.choice(names)
+        r = rng.random()
+        if r < 0.34:
+            ops.append("get %s .%s" % (o, n))
+        elif r < 0.64:
+            ops.append("set %s .%s %s" % (o, n, rng.choice(VALUES)))
+        elif r < 0.70:
+            ops.append("del %s .%s" % (o, n))
+        elif r < 0.80:
+            ops.append("trt %s .%s %s" % (o, n, rng.choice(["-1", "2", "0", "1"])))
+        elif r < 0.90:
+            ops.append("add %s .%s %s" % (o, n, rand_spec(rng, tag)))
+            tag += 1
+        else:
+            ops.append("rem %s .%s" % (o, n))
     return "res|" + ";".join(ops)
 
 
